@@ -754,6 +754,29 @@ def r20_16(run, model):
     for f in model.fns(QUERY):
         if f.body is None or not any("HirResultsIndex" in (p["ty"] or "") for p in f.params() if not p["self"]):
             continue
+        # the same walk written as an iterator chain: token.parent_ancestors().filter(<kinds>).find_map(|n| index.expr_id(..))
+        fpar = S.Parents(f.body)
+        for c in S.walk(f.body):
+            if not (c["k"] == "MethodCall" and re.fullmatch(r"(expr|pat)_id", c["method"]) and S.is_path(c["recv"], "index")):
+                continue
+            clo = next((a for a in fpar.ancestors(c) if a["k"] == "Closure"), None)
+            host = fpar.parent(clo) if clo is not None else None
+            if host is None or host["k"] != "MethodCall" or host["method"] not in ("find_map", "filter_map", "map", "and_then"):
+                continue
+            chain, r = [], host["recv"]
+            while r["k"] == "MethodCall":
+                chain.append(r)
+                r = r["recv"]
+            if not any("ancestors" in x["method"] for x in chain):
+                continue
+            n += 1
+            gates = [S.norm_ws(run.facts.text(QUERY, x["args"][0]["sp"])) for x in chain if x["method"] in ("filter", "take_while", "skip_while") and x["args"]]
+            want = "STRUCT_LITERAL_FIELD" if c["method"] == "expr_id" else "STRUCT_PATTERN_FIELD"
+            ok = rec == 0 or not gates or all(re.search(r"\b" + want + r"\b", g_) for g_ in gates)
+            run.ob("R20.16", f"{f.name}|the walk accepts the node a shorthand field is recorded under", ok, site(QUERY, c["sp"]),
+                   f"index.{c['method']}(..) " + (f"behind the filter `{gates[0][:90]}`" if gates else "for every ancestor"),
+                   witness="fn mk(x: int32, y: string) -> Point { Point { x, y } }: hover on x answers `Point` (the first mapped ancestor of an "
+                           "accepted kind is the whole literal); same for `let Point { x, y } = p`")
         for w in S.find(f.body, "While"):
             looks = [c for c in S.walk(w["body"]) if c["k"] == "MethodCall" and re.fullmatch(r"(expr|pat)_id", c["method"]) and S.is_path(c["recv"], "index")]
             if not looks:
